@@ -19,7 +19,7 @@ import (
 func init() {
 	Register(&Rule{ID: "R-TXN-12", Props: []string{"C01", "C05"}, Floor: 4,
 		Doc:      "the uncommitted views are partitioned: the methods of UncommittedViews that select from the Updated / Created maps (returning a map) each filter by one FileInfo predicate; evaluated over every ViewType constant, each view type for which FileInfo.IsUpdatable holds satisfies exactly one of the predicates the Updated-selectors use — so every changed table is either written to its file by COMMIT or stored / restored as an in-memory table, none is skipped (STDIN is an in-memory table that is not a temporary table) and none is handled twice; the counting methods use one of the selectors' predicates",
-		Controls: []string{"CtlUncommittedSkipsStdin"},
+		Controls: []string{"CtlUncommittedSkipsStdin", "CtlCountsOtherPredicate"},
 		Run:      ruleTxn12})
 }
 
@@ -115,6 +115,67 @@ func txn12EvalPredicate(fn *ssa.Function, fieldName string, v int64) (res bool, 
 	return false, false
 }
 
+// txn12Env: what the parameters of a helper denote on one call path from a selector.
+type txn12Env struct {
+	maps  map[*ssa.Parameter]string        // parameter → "Updated" / "Created"
+	preds map[*ssa.Parameter]*ssa.Function // function-typed parameter → FileInfo predicate
+}
+
+func txn12IsBool(t types.Type) bool {
+	bt, ok := t.Underlying().(*types.Basic)
+	return ok && bt.Kind() == types.Bool
+}
+
+// txn12IsPredicateMethod: `func (recv) IsX() bool`.
+func txn12IsPredicateMethod(p *ssa.Function) bool {
+	return p != nil && p.Signature.Recv() != nil && p.Signature.Params().Len() == 0 && p.Signature.Results().Len() == 1 && txn12IsBool(p.Signature.Results().At(0).Type())
+}
+
+// txn12UnwrapPredicate: the predicate method a function value stands for — the method itself, or the
+// single predicate method that a thunk / bound-method wrapper / one-line literal calls on its own
+// argument and whose result it returns unchanged.
+func txn12UnwrapPredicate(f *ssa.Function) *ssa.Function {
+	if f == nil {
+		return nil
+	}
+	if txn12IsPredicateMethod(f) {
+		return f
+	}
+	if f.Blocks == nil || f.Signature.Results().Len() != 1 || !txn12IsBool(f.Signature.Results().At(0).Type()) {
+		return nil
+	}
+	var found *ssa.Function
+	for _, b := range f.Blocks {
+		for _, in := range b.Instrs {
+			switch x := in.(type) {
+			case *ssa.Return:
+				call, ok := x.Results[0].(*ssa.Call)
+				if !ok {
+					return nil
+				}
+				p := core.StaticCallee(call)
+				if !txn12IsPredicateMethod(p) || len(call.Call.Args) != 1 || found != nil {
+					return nil
+				}
+				switch r := call.Call.Args[0].(type) {
+				case *ssa.Parameter:
+				case *ssa.UnOp:
+					if _, isFV := r.X.(*ssa.FreeVar); !isFV {
+						return nil
+					}
+				case *ssa.FreeVar:
+				default:
+					return nil
+				}
+				found = p
+			case *ssa.Store, *ssa.MapUpdate, *ssa.Send, *ssa.Go:
+				return nil
+			}
+		}
+	}
+	return found
+}
+
 func ruleTxn12(c *Ctx) {
 	start := len(c.Obs)
 	pk := c.P.ByPath["lib/query"]
@@ -166,56 +227,132 @@ func ruleTxn12(c *Ctx) {
 		if !strings.HasSuffix(rn, "UncommittedViews") {
 			continue
 		}
-		// closed under private helpers: a selector may delegate the loop
-		fns := []*ssa.Function{fn}
-		for h := range privateHelpersOf(c.P, fn, 2) {
-			fns = append(fns, h)
+		// closed under helpers, context-sensitively: a selector may delegate the loop to a method of the
+		// same receiver or to a function that receives the map (m.Updated) and / or the predicate
+		// ((*FileInfo).IsFile) as arguments; the arguments are resolved per call path from the selector
+		root := fn
+		retMap := false
+		if root.Signature.Results().Len() > 0 {
+			_, retMap = root.Signature.Results().At(0).Type().Underlying().(*types.Map)
 		}
-		sort.Slice(fns[1:], func(i, j int) bool { return c.P.Name(fns[1+i]) < c.P.Name(fns[1+j]) })
-		for _, g := range fns {
+		var collect func(g *ssa.Function, env txn12Env, depth int)
+		collect = func(g *ssa.Function, env txn12Env, depth int) {
+			mapOf := func(v ssa.Value) string {
+				switch x := v.(type) {
+				case *ssa.UnOp:
+					if fa, ok := x.X.(*ssa.FieldAddr); ok && x.Op == token.MUL {
+						if n := core.FieldName(fa); n == "Updated" || n == "Created" {
+							return n
+						}
+					}
+				case *ssa.Parameter:
+					return env.maps[x]
+				}
+				return ""
+			}
+			predOf := func(v ssa.Value) *ssa.Function {
+				if prm, ok := v.(*ssa.Parameter); ok {
+					return env.preds[prm]
+				}
+				os := core.Origins(v, false)
+				if len(os) != 1 {
+					return nil
+				}
+				switch x := os[0].(type) {
+				case *ssa.Function:
+					return txn12UnwrapPredicate(x)
+				case *ssa.MakeClosure:
+					f, _ := x.Fn.(*ssa.Function)
+					return txn12UnwrapPredicate(f)
+				case *ssa.Parameter:
+					return env.preds[x]
+				}
+				return nil
+			}
+			var mapNames []string
 			for _, b := range g.Blocks {
 				for _, in := range b.Instrs {
-					rg, ok := in.(*ssa.Range)
-					if !ok {
-						continue
-					}
-					ld, ok := rg.X.(*ssa.UnOp)
-					if !ok {
-						continue
-					}
-					fa, ok := ld.X.(*ssa.FieldAddr)
-					if !ok {
-						continue
-					}
-					mapName := core.FieldName(fa)
-					if mapName != "Updated" && mapName != "Created" {
-						continue
-					}
-					// the predicate: a call of a no-argument bool method of *FileInfo in g that feeds an If
-					for _, call := range core.Calls(g) {
-						p := core.StaticCallee(call)
-						cv, isCall := call.(*ssa.Call)
-						if p == nil || !isCall || p.Signature.Recv() == nil || p.Signature.Params().Len() != 0 || p.Signature.Results().Len() != 1 {
-							continue
+					if rg, ok := in.(*ssa.Range); ok {
+						if n := mapOf(rg.X); n != "" {
+							mapNames = append(mapNames, n)
 						}
-						if bt, ok := p.Signature.Results().At(0).Type().Underlying().(*types.Basic); !ok || bt.Kind() != types.Bool {
-							continue
-						}
-						feedsIf := false
-						for _, r := range *cv.Referrers() {
-							if _, ok := r.(*ssa.If); ok {
-								feedsIf = true
-							}
-						}
-						if !feedsIf {
-							continue
-						}
-						_, retMap := fn.Signature.Results().At(0).Type().Underlying().(*types.Map)
-						sels = append(sels, sel{fn, mapName, p, retMap})
 					}
 				}
 			}
+			if len(mapNames) > 0 {
+				// the predicate: a call of a no-argument bool method of *FileInfo in g — directly or through a
+				// function-typed parameter bound to it — that feeds an If
+				for _, call := range core.Calls(g) {
+					cv, isCall := call.(*ssa.Call)
+					if !isCall {
+						continue
+					}
+					feedsIf := false
+					for _, r := range *cv.Referrers() {
+						if _, ok := r.(*ssa.If); ok {
+							feedsIf = true
+						}
+					}
+					if !feedsIf {
+						continue
+					}
+					var pred *ssa.Function
+					if p := core.StaticCallee(call); p != nil {
+						if !txn12IsPredicateMethod(p) {
+							continue
+						}
+						pred = p
+					} else if prm, ok := call.Common().Value.(*ssa.Parameter); ok && !call.Common().IsInvoke() {
+						sig, _ := prm.Type().Underlying().(*types.Signature)
+						if sig == nil || sig.Params().Len() != 1 || sig.Results().Len() != 1 || !txn12IsBool(sig.Results().At(0).Type()) {
+							continue
+						}
+						pred = env.preds[prm]
+						if pred == nil && depth == 0 {
+							// the method itself is the parameterised helper: it is judged on the paths from the methods that call it
+							continue
+						}
+						if pred == nil {
+							c.Unknown(c.KeyAt(root, "predicate of the loop over "+mapNames[0]+" in "+g.Name()), c.Pos(call), "cannot-analyse: the filter is the function-typed parameter "+prm.Name()+" and the function passed for it on the path from "+root.Name()+" is not a FileInfo predicate (method expression, method value or a literal returning one)")
+							continue
+						}
+					} else {
+						continue
+					}
+					for _, mapName := range mapNames {
+						sels = append(sels, sel{root, mapName, pred, retMap})
+					}
+				}
+			}
+			if depth >= 3 {
+				return
+			}
+			for _, call := range core.Calls(g) {
+				h := core.StaticCallee(call)
+				if h == nil || h.Blocks == nil || h == g || h == root || !inModule(h) || txn12IsPredicateMethod(h) {
+					continue
+				}
+				env2 := txn12Env{maps: map[*ssa.Parameter]string{}, preds: map[*ssa.Parameter]*ssa.Function{}}
+				for i, a := range call.Common().Args {
+					if i >= len(h.Params) {
+						break
+					}
+					if n := mapOf(a); n != "" {
+						env2.maps[h.Params[i]] = n
+					}
+					if _, isFn := h.Params[i].Type().Underlying().(*types.Signature); isFn {
+						if pr := predOf(a); pr != nil {
+							env2.preds[h.Params[i]] = pr
+						}
+					}
+				}
+				sameRecv := h.Signature.Recv() != nil && types.Identical(h.Signature.Recv().Type(), root.Signature.Recv().Type())
+				if sameRecv || len(env2.maps)+len(env2.preds) > 0 {
+					collect(h, env2, depth+1)
+				}
+			}
 		}
+		collect(root, txn12Env{}, 0)
 	}
 	if len(sels) == 0 {
 		c.Unknown("anchor:selectors of UncommittedViews", "-", "cannot-analyse: no method of UncommittedViews filters Updated / Created by a FileInfo predicate")
@@ -303,7 +440,7 @@ func ruleTxn12(c *Ctx) {
 			c.Check(preds[s.pred], key, c.FnPos(s.fn), "filters by "+s.pred.Name(), "counts the entries of Updated that satisfy "+s.pred.Name()+", which no selector uses ("+strings.Join(names, ", ")+"): the reported number of changed tables differs from what COMMIT handles")
 		}
 	}
-	c.negControls(start, "OkPartitionUncommittedViews")
+	c.negControls(start, "OkPartitionUncommittedViews", "OkPartitionArgsUncommittedViews")
 	if real < 4 {
 		c.Unknown("anchor:view types judged", "-", fmt.Sprintf("cannot-analyse: expected one obligation per ViewType constant, got %d", real))
 	}
